@@ -460,6 +460,9 @@ func c09Apply(st *c09State, mu MutC09) string {
 			co.SetPTSOffset(gots.PTS(mu.V >> 8)) // possibly wider than the 33-bit field
 			if mu.B {
 				co = c09WrappedComp{ComponentOffset: co}
+			} else if mu.V&0x80 != 0 {
+				// an implementation of its own that reports the offset as it was given, wider than the 33-bit field
+				co = &c09OwnComp{tag: byte(0x40 + i), off: gots.PTS(mu.V >> 8)}
 			}
 			cs = append(cs, co)
 			md.Comps = append(md.Comps, ref.SegOffset{Tag: byte(0x40 + i), Offset: off})
@@ -560,6 +563,17 @@ func (w c09WrappedUPID) SetUPIDType(v scte35.SegUPIDType) { w.inner.SetUPIDType(
 func (w c09WrappedUPID) SetUPID(v []byte)                 { w.inner.SetUPID(v) }
 
 type c09WrappedComp struct{ scte35.ComponentOffset }
+
+// c09OwnComp is a ComponentOffset implementation that is not the library's.
+type c09OwnComp struct {
+	tag byte
+	off gots.PTS
+}
+
+func (c *c09OwnComp) ComponentTag() byte      { return c.tag }
+func (c *c09OwnComp) PTSOffset() gots.PTS     { return c.off }
+func (c *c09OwnComp) SetComponentTag(v byte)  { c.tag = v }
+func (c *c09OwnComp) SetPTSOffset(v gots.PTS) { c.off = v }
 
 // c09Permute applies the same reordering to a list of library objects and to
 // the model's list: 0 reverse, 1 rotate left by one, 2 the first element once more in front.
